@@ -13,6 +13,7 @@ import PyTough.Proofs.ListingRows
 import PyTough.Proofs.ListingValues
 import PyTough.Proofs.ListingRowFormat
 import PyTough.Proofs.ListingFile
+import PyTough.Proofs.ListingWhole
 import PyTough.Gen.ListingBind
 
 namespace Props.C05
@@ -272,5 +273,145 @@ example : exT.getByName [['b'], ['c']] = some ⟨[['b'], ['c']], [(['F'], .fin f
 example : exT.getByName [['c'], ['b']] = some ⟨[['c'], ['b']], [(['F'], .fin true 3 0), (['G'], .fin false 4 0)]⟩ := by decide
 example : exT.getCol ['G'] = some [.fin false 2 0, .fin true 4 0] := by decide
 example : lastIdx exT.rows [['b'], ['c']] = some 1 ∧ colIdx exT.cols ['G'] = some 1 := by decide
+
+
+/-! ### a whole printed table: the reading loop of the whole-file reader over the lines of one table
+
+  The region of a TOUGH2-family table, as the layout recorded at set-up time describes it: `header_skiplines` lines
+  (column header, units, blank lines), then for every entry of `skiplines` one printed data line followed by that many
+  lines to be skipped (blank lines, repeated headers), then whatever follows the table (`after`).  `read_table_TOUGH2`
+  is the method bound for TOUGH2, TOUGH2_MP, TOUGH3, TOUGHREACT and TOUGH+ (`binding_is_modelled`). -/
+
+open Proofs.Whole in
+/-- the well-formedness of a table region for a table `t` that has been set up: decidable on concrete lines -/
+def TableRegionT (t : Table) (header : List Str) (segs : List (Str × List Str)) : Prop :=
+  header.length = t.headerSkip ∧ segs.map (·.2.length) = t.skips ∧ t.data.size = t.rows.size ∧
+  ∀ sg ∈ segs, (rowOfLineT t.rows t.keyPos t.cols.length t.numpos sg.1).isSome = true
+
+instance (t : Table) (header : List Str) (segs : List (Str × List Str)) : Decidable (TableRegionT t header segs) := by
+  unfold TableRegionT; infer_instance
+
+open Proofs.Whole in
+/-- what `rowOfLineT … d = some (i, vals)` says about a printed data line `d`: its key (`key_from_line`) names row
+    `i` of the table, the row reader does not raise on it and returns `vals`, one value per column -/
+theorem data_line_meaning (t : Table) (d : Str) (i : Nat) (vals : List FVal) :
+    rowOfLineT t.rows t.keyPos t.cols.length t.numpos d = some (i, vals) ↔
+      ∃ key, keyFromLine d t.keyPos = .ok key ∧ lastIdx t.rows key = some i ∧
+        readTableLineTOUGH2 d t.cols.length t.numpos = .ok vals ∧ vals.length = t.cols.length :=
+  rowOfLineT_spec _ _ _ _ _ _ _
+
+open Proofs.Whole in
+/-- **One row per printed data line (TOUGH2 family).**  `read_table_TOUGH2`, run with the file at the first line of a
+    well-formed table region, returns normally; the file is then exactly behind the region (line count included);
+    for every printed data line `d` (the `j`-th), the row its key names holds exactly the values the row reader
+    returns for `d` — unless a later data line of the same table names the same row, which then wins, as coded;
+    rows named by no data line keep what they held; the table's row names, columns and layout are unchanged; no
+    other table and no other attribute of the reader changes. -/
+theorem table_read_TOUGH2 (tn : String) (t : Table) (s : Rd) (header : List Str) (segs : List (Str × List Str))
+    (after : List Str)
+    (ht : s.tables.lookup tn = some t)
+    (hrest : s.pos.rest = header ++ (flat segs ++ after))
+    (hwf : TableRegionT t header segs) :
+    ∃ s' t', (readTableTOUGH2 tn).run s = .ok ((), s') ∧
+      s'.pos = ⟨s.pos.no + (header.length + (flat segs).length), after⟩ ∧
+      s'.tables.lookup tn = some t' ∧ t' = { t with data := t'.data } ∧ t'.data.size = t.data.size ∧
+      (∀ (j : Nat) d i vals, (segs.map (·.1))[j]? = some d →
+          rowOfLineT t.rows t.keyPos t.cols.length t.numpos d = some (i, vals) →
+          (∀ (j' : Nat) d', j < j' → (segs.map (·.1))[j']? = some d' →
+              ∀ v', rowOfLineT t.rows t.keyPos t.cols.length t.numpos d' ≠ some (i, v')) →
+          t'.data[i]? = some vals.toArray) ∧
+      (∀ i, (∀ d ∈ segs.map (·.1), ∀ v, rowOfLineT t.rows t.keyPos t.cols.length t.numpos d ≠ some (i, v)) →
+          t'.data[i]? = t.data[i]?) ∧
+      (∀ m, m ≠ tn → s'.tables.lookup m = s.tables.lookup m) ∧
+      s'.tables.map (·.1) = s.tables.map (·.1) ∧
+      s' = { s with pos := s'.pos, tables := s'.tables } := by
+  obtain ⟨hh, hsk, hdata, hok⟩ := hwf
+  let f : Str → Option (Nat × List FVal) := rowOfLineT t.rows t.keyPos t.cols.length t.numpos
+  have hups : segs.map (fun sg => f sg.1) = ((segs.map (·.1)).filterMap f).map some := by
+    rw [← map_eq_map_some_filterMap f (segs.map (·.1))]
+    · rw [List.map_map]; rfl
+    · intro x hx
+      obtain ⟨sg, hsg, rfl⟩ := List.mem_map.mp hx
+      exact hok sg hsg
+  have hrun := readTableTOUGH2_run tn t s header segs after _ ht hrest hh hsk hups
+  refine ⟨_, { t with data := applyRows t.data ((segs.map (·.1)).filterMap f) }, hrun, rfl, ?_, rfl, ?_, ?_, ?_, ?_, ?_, rfl⟩
+  · exact putT_lookup_self tn _ _ (by simp [ht])
+  · exact applyRows_size _ _
+  · intro j d i vals hj hf hlater
+    have hi : i < t.data.size := by
+      obtain ⟨key, _, hli, _, _⟩ := (rowOfLineT_spec _ _ _ _ _ _ _).mp hf
+      rw [hdata]; exact (Proofs.Listing.lastIdx_spec hli).1
+    exact applyRows_line f _ t.data j d i vals hj hf hi hlater
+  · intro i h
+    exact applyRows_no_line f _ t.data i h
+  · intro m hm
+    exact putT_lookup_other tn m _ _ hm
+  · exact putT_names tn _ _
+
+open Proofs.Whole in
+/-- **Each cell equals the number printed in that row and column (whole table, TOUGH2 family).**  With the column
+    boundaries `b₀ … bₙ` of the layout (those `column_boundaries_correct` infers), after `read_table_TOUGH2` on a
+    well-formed region the cell in the row named by data line `d` and column `k` is `fortran_float` of columns
+    `[b_k, b_{k+1})` of `d` (what `field_value_printed` / `blank_field_is_zero` evaluate), when no later line names
+    the same row. -/
+theorem cells_equal_printed_table_TOUGH2 (tn : String) (t : Table) (s : Rd) (header : List Str) (segs : List (Str × List Str))
+    (after : List Str) (bounds : List Nat)
+    (ht : s.tables.lookup tn = some t)
+    (hrest : s.pos.rest = header ++ (flat segs ++ after))
+    (hwf : TableRegionT t header segs) (hb : t.numpos = bounds.map natPos) :
+    ∃ s' t', (readTableTOUGH2 tn).run s = .ok ((), s') ∧ s'.pos.rest = after ∧ s'.tables.lookup tn = some t' ∧
+      ∀ (j : Nat) d i vals, (segs.map (·.1))[j]? = some d →
+        rowOfLineT t.rows t.keyPos t.cols.length t.numpos d = some (i, vals) →
+        (∀ (j' : Nat) d', j < j' → (segs.map (·.1))[j']? = some d' →
+            ∀ v', rowOfLineT t.rows t.keyPos t.cols.length t.numpos d' ≠ some (i, v')) →
+        ∃ row, t'.data[i]? = some row ∧ row.size = t.cols.length ∧
+          ∀ (k a b : Nat), bounds[k]? = some a → bounds[k + 1]? = some b → row[k]? = some (readField (slice d a b)) := by
+  obtain ⟨s', t', hrun, hpos, htab, _, _, hline, _⟩ := table_read_TOUGH2 tn t s header segs after ht hrest hwf
+  refine ⟨s', t', hrun, by rw [hpos], htab, ?_⟩
+  intro j d i vals hj hf hlater
+  refine ⟨vals.toArray, hline j d i vals hj hf hlater, ?_, ?_⟩
+  · obtain ⟨_, _, _, _, hl⟩ := (rowOfLineT_spec _ _ _ _ _ _ _).mp hf
+    simpa using hl
+  · intro k a b ha hbb
+    obtain ⟨_, _, _, hv, _⟩ := (rowOfLineT_spec _ _ _ _ _ _ _).mp hf
+    obtain ⟨vals', hv', hcell, _⟩ := row_slicing_correct d t.cols.length bounds
+    rw [hb, hv'] at hv
+    injection hv with hv
+    subst hv
+    simpa using hcell k a b ha hbb
+
+open Proofs.Whole in
+/-- **Skipping a table leaves the file where reading it would (whole table, TOUGH2 family).**  On the same region,
+    for a table with as many rows as printed data lines (no row printed twice), `skip_table_TOUGH2` and
+    `read_table_TOUGH2` end at the same file position, and the skip changes nothing else. -/
+theorem skip_table_lands_where_read_lands_TOUGH2 (tn : String) (t : Table) (s : Rd) (header : List Str)
+    (segs : List (Str × List Str)) (after : List Str)
+    (ht : s.tables.lookup tn = some t)
+    (hrest : s.pos.rest = header ++ (flat segs ++ after))
+    (hwf : TableRegionT t header segs) (hrows : t.rows.size = segs.length) :
+    ∃ s₁ s₂, (readTableTOUGH2 tn).run s = .ok ((), s₁) ∧ (skipTableTOUGH2 tn).run s = .ok ((), s₂) ∧
+      s₂.pos = s₁.pos ∧ s₂ = { s with pos := s₂.pos } := by
+  obtain ⟨s₁, _, hrun, hpos, _⟩ := table_read_TOUGH2 tn t s header segs after ht hrest hwf
+  refine ⟨s₁, _, hrun, skipTableTOUGH2_run tn t s header segs after ht hrest hwf.1 hwf.2.1 hrows, ?_, rfl⟩
+  rw [hpos]
+
+-- the hypotheses of the four theorems above are satisfiable: a two-row element table (header line, blank line, a data
+-- line followed by a blank line, a data line, the `@@@@@` line behind the table)
+private def exT2 : Table :=
+  { mkTable [['P'], ['T'], ['X']] #[[" AA 1".toList], [" BA 1".toList]] 1 false with
+    keyPos := [1], numpos := [12, 24, 36, 49].map natPos, headerSkip := 2, skips := [1, 0] }
+private def exHdr : List Str := [" ELEM. INDEX P T X\n".toList, "\n".toList]
+private def exSegs : List (Str × List Str) :=
+  [("  AA 1     1 0.99013E+07 0.00000E+00-0.12409E+03\n".toList, ["\n".toList]),
+   ("  BA 1     2 0.94153E+07 0.19209-103-0.66842E+01\n".toList, [])]
+private def exAfter : List Str := [" @@@@@@@@@@\n".toList]
+private def exRd : Rd :=
+  { all := exHdr ++ (Proofs.Whole.flat exSegs ++ exAfter), isOutputData := false,
+    pos := ⟨0, exHdr ++ (Proofs.Whole.flat exSegs ++ exAfter)⟩, tables := [("element", exT2)] }
+example : exRd.tables.lookup "element" = some exT2 ∧ exRd.pos.rest = exHdr ++ (Proofs.Whole.flat exSegs ++ exAfter) ∧
+    TableRegionT exT2 exHdr exSegs ∧ exT2.numpos = [12, 24, 36, 49].map natPos ∧ exT2.rows.size = exSegs.length :=
+  ⟨rfl, rfl, by decide, rfl, by decide⟩
+example : Proofs.Whole.rowOfLineT exT2.rows exT2.keyPos exT2.cols.length exT2.numpos exSegs[1].1
+    = some (1, [.fin false 94153 2, .fin false 19209 (-108), .fin true 66842 (-4)]) := by decide
 
 end Props.C05
